@@ -81,6 +81,14 @@ var corpus = []layer{
 	{"looks-like-grpc", "rpc error: code = NotFound desc = 100%: ", ""},
 }
 
+// layer texts added in the thorough tier
+var corpusThorough = []layer{
+	{"plain", "cannot do it: ", ""},
+	{"suffix-jso", "", " \x1bjso"},
+	{"esc-j", "\x1bj", ""}, // meets "son..." to form the complete marker: such chains are excluded
+	{"long", strings.Repeat("0123456789abcdef", 64) + ": ", ""},
+}
+
 func (l layer) wrap(inner error) error {
 	esc := func(s string) string { return strings.ReplaceAll(s, "%", "%%") }
 	return fmt.Errorf(esc(l.Pre)+"%w"+esc(l.Suf), inner)
@@ -184,9 +192,18 @@ func buildChain(k kase) (error, *finding) {
 
 // checkChain applies every oracle of the wrapping direction to one chain err around classes[ci];
 // obj is the embedded object or nil. It returns all findings (one per failing oracle / class pair).
-func checkChain(ci int, err error, emb string, obj *object) (out []finding) {
+//
+// seen (may be nil) holds the signatures this worker has reported already: a repeated signature is
+// neither formatted nor returned again, so that a broken tree does not spend its time on messages.
+func checkChain(ci int, err error, emb string, obj *object, seen map[string]int) (out []finding) {
 	c := classes[ci]
 	add := func(sig, format string, args ...any) {
+		if seen != nil {
+			seen[sig]++
+			if seen[sig] > 1 {
+				return
+			}
+		}
 		out = append(out, finding{sig, fmt.Sprintf(format, args...)})
 	}
 	var g, g2 error
@@ -211,12 +228,17 @@ func checkChain(ci int, err error, emb string, obj *object) (out []finding) {
 			add("errors/is-other/"+c.name+"-vs-"+t.name, "Is(GRPCWrap(e), %s) is true for e=%q wrapping %s (wrapped code %v)", t.name, err.Error(), c.name, status.Code(g))
 		}
 	}
-	// the code of a wrapped class is the code of the class
-	var cw, cc codes.Code
-	if f := guarded("GRPCStatusCode", func() { cw, cc = gerrors.GRPCStatusCode(err), gerrors.GRPCStatusCode(c.err) }); f != nil {
+	// the code computed for the chain maps back to the class (several codes may map to one class,
+	// so the codes themselves are not compared)
+	var cw codes.Code
+	var back error
+	if f := guarded("GRPCStatusCode", func() {
+		cw = gerrors.GRPCStatusCode(err)
+		back = gerrors.FromGRPCError(status.Error(cw, "x"))
+	}); f != nil {
 		out = append(out, *f)
-	} else if cw != cc {
-		add("errors/status-code-wrapped/"+c.name, "GRPCStatusCode(e)=%v but GRPCStatusCode(%s)=%v for e=%q", cw, c.name, cc, err.Error())
+	} else if back != c.err {
+		add("errors/status-code-wrapped/"+c.name, "GRPCStatusCode(e)=%v which maps back to %v, not to %s, for e=%q", cw, back, c.name, err.Error())
 	}
 	// idempotence
 	if f := guarded("GRPCWrap", func() { g2 = gerrors.GRPCWrap(g) }); f != nil {
@@ -322,6 +344,7 @@ const maxDepth = 4
 type counters struct {
 	chains, tuples, pruned, embInner, embOuter, embNone int64
 	byDepth                                             [maxDepth + 1]int64
+	seen                                                map[string]int
 }
 
 // subtreeSize is the number of chains at depth d and below it (d itself included).
@@ -360,7 +383,7 @@ func explore(run *report.Run, ci int, base *object, err error, plainMsg string, 
 		default:
 			cnt.embOuter++
 		}
-		fs := checkChain(ci, e, emb, obj)
+		fs := checkChain(ci, e, emb, obj, cnt.seen)
 		if len(fs) > 0 {
 			k := kase{Class: classes[ci].name, Layers: append([]layer(nil), layers...), Embed: emb}
 			if obj != nil {
@@ -408,6 +431,9 @@ func TestCheck(t *testing.T) {
 		return
 	}
 
+	if run.Thorough() {
+		corpus = append(corpus, corpusThorough...)
+	}
 	// harness self-checks: corpus texts distinct and marker-free, objects survive plain JSON
 	seen := map[string]bool{}
 	for _, l := range corpus {
@@ -434,6 +460,7 @@ func TestCheck(t *testing.T) {
 	}
 	units := make(chan unit, 64)
 	var total counters
+	var repeats int64 // findings whose signature the same worker had reported before
 	var mu sync.Mutex
 	var wg sync.WaitGroup
 	var sampled atomic.Int32
@@ -441,7 +468,7 @@ func TestCheck(t *testing.T) {
 		wg.Add(1)
 		go func() {
 			defer wg.Done()
-			var cnt counters
+			cnt := counters{seen: map[string]int{}}
 			for u := range units {
 				c := classes[u.ci]
 				err := c.err
@@ -469,6 +496,11 @@ func TestCheck(t *testing.T) {
 				}
 			}
 			mu.Lock()
+			for _, n := range cnt.seen {
+				if n > 1 {
+					repeats += int64(n - 1)
+				}
+			}
 			total.chains += cnt.chains
 			total.tuples += cnt.tuples
 			total.pruned += cnt.pruned
@@ -536,6 +568,7 @@ func TestCheck(t *testing.T) {
 	run.Add("chains_excluded_marker_formed", total.pruned)
 	run.Add("class_pairs_asked", total.tuples)
 	run.Add("code_message_pairs", int64(codePairs))
+	run.Add("repeated_findings_not_reported_again", repeats)
 	run.Note("chains_by_depth", total.byDepth)
 	run.Note("space", map[string]any{
 		"coded_classes": coded, "asked_classes": len(classes), "depths": "0..4", "layer_texts": len(corpus),
@@ -565,7 +598,7 @@ func exploreRoot(run *report.Run, ci int, base *object, err error, cnt *counters
 	} else {
 		cnt.embNone++
 	}
-	for _, f := range checkChain(ci, err, emb, base) {
+	for _, f := range checkChain(ci, err, emb, base, cnt.seen) {
 		k := kase{Class: c.name, Embed: emb}
 		if base != nil {
 			k.Object = base.name
@@ -605,7 +638,7 @@ func replay(run *report.Run, path string) {
 		if f != nil {
 			fs = append(fs, *f)
 		} else {
-			fs = checkChain(ci, e, k.Embed, objectByName(k.Object))
+			fs = checkChain(ci, e, k.Embed, objectByName(k.Object), nil)
 		}
 		if classes[ci].coded {
 			fs = append(fs, checkRoundTrip(ci)...)
